@@ -22,6 +22,9 @@ Rules (deliberately simple, conservative where cheap; limits at the end):
                         statement (temporaries die before the block).
                     Within the extent, what counts as executed under the guard: everything textually after the site, plus
                     the calls whose argument list encloses the site (they run after their arguments).
+                    (a') `let g = w!(<site>, ..);` - the guard is the first argument of wrappers (`uwr!`, `Ok`, ..) and nothing is
+                        called on it: bound like (a).  In an `if .. else if ..` chain the construct that governs a site is the
+                        last one opened before it (`else if let P = <site>` is a scrutinee, (b)).
  R3 closures        `let f = |..| ..;` is a local function: its body is not executed where it is written, a call `f(..)` in
                     the enclosing function runs it there.  Closures written inline (arguments of `.map(..)`, `uwr!(..)`, ..)
                     count as executed in place.
@@ -31,8 +34,9 @@ Rules (deliberately simple, conservative where cheap; limits at the end):
                     (fixpoint over the crate's call graph).  Passing `params` on is therefore covered by name resolution.
  R5 scope           all `*.rs` under pipeline/src (incl. the `verif` hook module); `#[cfg(test)]` modules excluded.
 
-Limits (would be missed): locks reached through trait objects / function pointers / other crates (e.g. the path metadata
-provider of xvc-core locks internally and returns), guards stored in structs or returned from functions, guards moved into
+Limits (would be missed): locks reached through trait objects / function pointers / other crates (the path metadata
+provider of xvc-core, which locks internally and returns, has its own table: `analyse_pmp` below, Gen/PmpLocks.lean,
+`C11_pmp_no_self_deadlock`), guards stored in structs or returned from functions, guards moved into
 threads, lazily evaluated iterators that capture a guard and are consumed in a later statement, macros that expand to lock
 calls, non-lexical early `drop` through shadowing.  Conservative (may add edges that cannot happen): name-based call
 resolution, whole-construct extent for scrutinee temporaries, branches not distinguished.
@@ -388,6 +392,11 @@ def scan_unit(s, u, holes, base_alias, problems):
         head = text[st:pos]
         tail_m = re.match(r'(\s*(\?|\.\s*unwrap\s*\(\s*\)|\.\s*expect\s*\([^()]*\)))*\s*;', text[site_end:])
         mlet = re.match(r'\s*let\s+(?:mut\s+)?([A-Za-z_]\w*)\s*(?::[^=]+)?=\s*$', head)
+        if not (mlet and tail_m):
+            # R2 (a'): the guard reaches the `let` through wrappers that hand their first argument on: `let g = uwr!(<site>, out);`
+            wrapped = bound_through_wrappers(text, head, site_end)
+            if wrapped:
+                mlet, tail_m = wrapped
         if mlet and tail_m:
             g = mlet.group(1)
             hi = enclosing_block_end(text, site_end, body_hi)
@@ -398,6 +407,11 @@ def scan_unit(s, u, holes, base_alias, problems):
         else:
             mscr = re.match(r'\s*(?:[A-Za-z_]\w*\s*=\s*)?(?:let\s+[^=]*=\s*)?(if\s+let\b|while\s+let\b|match\b|for\b)', head)
             plain_if = re.match(r'\s*(?:\}\s*else\s+)?(if|while)\b(?!\s+let\b)', head)
+            # in an `if .. {} else if ..` chain the construct that governs the site is the LAST one opened before it (the blocks
+            # of the earlier links are closed): `if a {} else if let P = <site> {}` is a scrutinee, `if let .. {} else if <site> {}` a condition
+            kw = governing_keyword(head)
+            if kw is not None and (mscr or plain_if):
+                mscr, plain_if = (kw if kw != 'plain' else None), (kw == 'plain' or None)
             hi = stmt_end(text, pos, body_hi)
             if mscr:
                 # the construct ends with its last block; stmt_end stops at `;` or at the closing brace of the parent block
@@ -427,6 +441,63 @@ def scan_unit(s, u, holes, base_alias, problems):
             continue
         kind = 'method' if (m.group(1) or '').strip() == '.' else ('path' if m.group(1) else 'free')
         u.calls.append((pos, kind, name))
+
+
+TAIL_OPS = re.compile(r'(\s*(\?|\.\s*unwrap\s*\(\s*\)|\.\s*expect\s*\([^()]*\)))*')
+
+
+def bound_through_wrappers(text, head, site_end):
+    """`let [mut] g = w1!(w2(<site>[?|.unwrap()|.expect(..)] [, more args]) [, more args]) ;` : the guard is the first argument
+    of every wrapper and nothing is called on it, so the wrappers may hand it on to `g` (uwr!, Ok, Some, Box::new, ..).
+    Returns (match of the let head, True) or None."""
+    m = re.match(r'\s*let\s+(?:mut\s+)?([A-Za-z_]\w*)\s*(?::[^=]+)?=\s*((?:[A-Za-z_][\w:]*\s*!?\s*\(\s*)+)$', head)
+    if not m:
+        return None
+    nwrap = m.group(2).count('(')
+    j = site_end + TAIL_OPS.match(text, site_end).end() - site_end
+    for _ in range(nwrap):
+        depth = 0
+        k = j
+        while k < len(text):
+            ch = text[k]
+            if ch in '([{':
+                depth += 1
+            elif ch in ')]}':
+                if depth == 0:
+                    break
+                depth -= 1
+            elif ch == ';' and depth == 0:
+                return None
+            k += 1
+        if k >= len(text) or text[k] != ')':
+            return None
+        between = text[j:k].strip()
+        if between and not between.startswith(','):
+            return None                     # something is called on the guard: a temporary
+        j = TAIL_OPS.match(text, k + 1).end()
+    return (m, True) if re.match(r'\s*;', text[j:]) else None
+
+
+def governing_keyword(head):
+    """the last `if let` / `while let` / `match` / `for` (returned as that text) or plain `if` / `while` ('plain') in the text
+    between the start of the statement and a lock site, ignoring blocks and parenthesised groups that are already closed"""
+    h = list(head)
+    stack = []
+    for i, ch in enumerate(head):
+        if ch in '{(':
+            stack.append(i)
+        elif ch in '})' and stack:
+            a = stack.pop()
+            for k in range(a, i + 1):
+                if h[k] != '\n':
+                    h[k] = ' '
+    flat = ''.join(h)
+    last = None
+    for m in re.finditer(r'\b(if\s+let|while\s+let|match|for|if|while)\b', flat):
+        last = m.group(1)
+    if last is None:
+        return None
+    return 'plain' if last in ('if', 'while') else last
 
 
 def construct_end(s, pos, limit):
@@ -467,6 +538,149 @@ def cond_end(s, pos, limit):
     return limit
 
 
+# ------------------------------------------------------------------------------------------------ xvc-core: the path metadata provider
+# Every dependency comparison of every step thread goes through ONE XvcPathMetadataProvider (core/src/util/pmp.rs); its map is
+# behind a std RwLock that the step threads and the file-system watcher thread share.  The scheduler model treats a lookup as
+# atomic, which needs: no function of the provider acquires a lock of which the same thread still holds a guard.
+#
+# Table `Gen.pmpAcquisitions`: one entry per ACQUISITION EVENT in a function of the file - a lock site, or a call of a function
+# of the provider that (transitively) acquires - with the guards of the same thread that are alive at that point (R2 extents:
+# bound guards incl. `let g = uwr!(<site>, ..)`, scrutinee temporaries of `if let`/`match`/`for`/`while let` for the WHOLE
+# construct, other temporaries to the end of the statement, conditions of a plain `if`/`while` only for the condition).
+#  P1 locks      the fields of the struct whose type mentions `RwLock<` / `Mutex<`; aliases: `let x = <lock>.clone();`,
+#                `let x = <alias>;` and the closure parameter names in PMP_PARAM_ALIASES.  A `.read()/.write()/.lock()` on anything
+#                else is an error (broken tie).
+#  P2 calls      `self.name(..)`, `Self::name(..)`, `XvcPathMetadataProvider::name(..)` resolve to the fn `name` of the file; `name(..)`
+#                to a local closure `let name = |..| ..`.  A method call on any other receiver (`pm.get(path)` on a guard: HashMap::get)
+#                is a method of another type; none of those types can reach the provider (std, crossbeam, xvc-walker, glob).  Calls
+#                with the NAME of a provider function on another receiver are listed in the evidence (`foreign_receiver_calls`).
+#  P3 modes      `.read()` = shared, `.write()` / `.lock()` = exclusive.
+# Limits: a provider reached through another binding (`let me = self; me.get(..)`), guards returned from functions or stored.
+
+PMP_FILE = os.path.join('core', 'src', 'util', 'pmp.rs')
+PMP_STRUCT = 'XvcPathMetadataProvider'
+PMP_PARAM_ALIASES = {'pmm': 'path_map'}        # parameter of the watcher's `handle_fs_event` closure: the Arc of the path map
+
+
+def analyse_pmp(repo):
+    path = os.path.join(repo, PMP_FILE)
+    raw = open(path).read()
+    s = blank_comments_and_strings(raw)
+    ms = re.search(r'\bstruct\s+' + PMP_STRUCT + r'\s*\{', s)
+    if not ms:
+        raise LockExtractError(f'{PMP_FILE}: struct {PMP_STRUCT} not found')
+    body = s[ms.end():match_close(s, ms.end() - 1, '{', '}')]
+    locks = [m.group(1) for m in re.finditer(r'\b([a-z_]\w*)\s*:\s*([^,{}]*?(?:RwLock|Mutex)\s*<[^,]*(?:<[^<>]*>[^,]*)*),', body)]
+    if not locks:
+        raise LockExtractError(f'{PMP_FILE}: no RwLock/Mutex field found in {PMP_STRUCT}')
+    alias = {l: l for l in locks}
+    alias.update({k: v for k, v in PMP_PARAM_ALIASES.items() if v in locks})
+    # `let x = <alias>;` (moves of the Arc, e.g. into the watcher thread), to a fixpoint together with the `.clone()` rule of scan_unit
+    for _ in range(3):
+        for m in re.finditer(r'\blet\s+(?:mut\s+)?([A-Za-z_]\w*)\s*=\s*(?:self\s*\.\s*)?([A-Za-z_]\w*)\s*(?:\.\s*clone\s*\(\s*\)\s*)?;', s):
+            if m.group(2) in alias and m.group(1) not in alias:
+                alias[m.group(1)] = alias[m.group(2)]
+    fns = parse_functions(PMP_FILE, s)
+    problems, units = [], []
+    for f in fns:
+        find_closures(s, f)
+    raw_count = sum(1 for m in RAW_SITE.finditer(s))
+    covered = []
+    for f in fns:
+        inner = [g for g in fns if g is not f and f.start < g.start and g.end < f.end]
+        holes = [(g.start, g.end) for g in inner] + [(c.start, c.end) for c in f.closures.values()]
+        scan_unit(s, f, holes, alias, problems)
+        units.append(f)
+        for c in f.closures.values():
+            scan_unit(s, c, [(g.start, g.end) for g in inner], alias, problems)
+            units.append(c)
+        covered.append((f.start, f.end))
+    for m in SITE.finditer(s):
+        if not any(a <= m.start() <= b for a, b in covered):
+            problems.append(f'{PMP_FILE}:{s[:m.start()].count(chr(10)) + 1}: lock call outside a function body')
+    if problems:
+        raise LockExtractError('; '.join(problems[:6]))
+    nsites = sum(len(u.sites) for u in units)
+    if nsites != raw_count:
+        raise LockExtractError(f'{PMP_FILE}: the extractor understood {nsites} lock sites but a plain regex finds {raw_count} '
+                               '`.read()/.write()/.lock()` calls: a syntactic form is not understood')
+    by_name = {}
+    for f in fns:
+        by_name.setdefault(f.name, []).append(f)
+    foreign = []
+
+    def resolve(u, pos, kind, name):
+        owner = u.parent or u
+        pre = s[max(0, pos - 60):pos]
+        if kind == 'method':
+            if re.search(r'(?<![\w.])self\s*\.\s*$', pre):
+                return by_name.get(name, [])
+            if name in by_name:
+                foreign.append(f'{PMP_FILE}:{s[:pos].count(chr(10)) + 1} in {u.label()}: `.{name}(` on a receiver other than self')
+            return []
+        if kind == 'path':
+            return by_name.get(name, []) if re.search(r'\b(Self|' + PMP_STRUCT + r')\s*::\s*$', pre) else []
+        return [owner.closures[name]] if name in owner.closures else []
+    mode = {'read': 'shared', 'write': 'exclusive', 'lock': 'exclusive'}
+    for u in units:
+        u.acq = {(l, mode[op]) for (_, l, op) in u.sites}
+        u.rcalls = [(pos, c) for (pos, kind, name) in u.calls for c in resolve(u, pos, kind, name)]
+    foreign = sorted(set(foreign))
+    changed = True
+    while changed:
+        changed = False
+        for u in units:
+            for (_, c) in u.rcalls:
+                if not c.acq <= u.acq:
+                    u.acq |= c.acq; changed = True
+    entries = []
+    for u in units:
+        op_at = {p: op for (p, _, op) in u.sites}
+
+        def held_at(pos, own_site=None):
+            h = []
+            for (g, spos, lo, hi, encl) in u.extents:
+                if spos == own_site:
+                    continue
+                if (spos < pos < hi) or pos in encl:
+                    h.append((g, mode[op_at[spos]], s[:spos].count('\n') + 1))
+            return sorted(set(h))
+        for (pos, l, op) in u.sites:
+            entries.append({'fn': u.label(), 'line': s[:pos].count('\n') + 1, 'via': f'{l}.{op}()', 'lock': l, 'mode': mode[op], 'held': held_at(pos, pos)})
+        for (pos, c) in u.rcalls:
+            for (l, m) in sorted(c.acq):
+                entries.append({'fn': u.label(), 'line': s[:pos].count('\n') + 1, 'via': f'call of {c.label()}', 'lock': l, 'mode': m, 'held': held_at(pos)})
+    entries.sort(key=lambda e: (e['line'], e['fn'], e['lock'], e['mode'], e['via']))
+    extents = sorted(f'{u.label()}: {g} guard of line {s[:spos].count(chr(10)) + 1} alive to line {s[:max(hi - 1, spos)].count(chr(10)) + 1}'
+                     for u in units for (g, spos, lo, hi, encl) in u.extents)
+    return {'locks': locks, 'entries': entries, 'sites': nsites, 'functions': len(fns), 'closures': sum(len(f.closures) for f in fns),
+            'guard_extents': extents, 'foreign_receiver_calls': foreign}
+
+
+def pmp_lean_source(res):
+    L = ['/-! GENERATED by lib/lock_extract.py (`analyse_pmp`) from core/src/util/pmp.rs (rules P1-P3, R2 in its source).  Do not edit.',
+         '    One entry per acquisition event in a function of XvcPathMetadataProvider (a lock site, or a call of a provider function that',
+         '    acquires): the lock, the mode, and the guards OF THE SAME THREAD that are alive at that point. -/',
+         'namespace Sched.Gen', '', 'inductive PLock where']
+    L += [f'  | {k}' for k in res['locks']]
+    L += ['deriving DecidableEq, Repr', '',
+          'def allPLocks : List PLock := [' + ', '.join('.' + k for k in res['locks']) + ']',
+          'theorem mem_allPLocks (l : PLock) : l ∈ allPLocks := by cases l <;> simp [allPLocks]', '',
+          '/-- `.read()` = shared, `.write()` / `.lock()` = exclusive -/',
+          'inductive PMode where', '  | shared', '  | exclusive', 'deriving DecidableEq, Repr', '',
+          'structure PAcq where', '  fn : String', '  line : Nat', '  lock : PLock', '  mode : PMode', '  held : List (PLock × PMode)', 'deriving Repr', '',
+          'def pmpAcquisitions : List PAcq := [']
+    for k, e in enumerate(res['entries']):
+        held = ', '.join(f'(.{g}, .{m})' for (g, m, _) in e['held'])
+        note = ('   while the ' + ', '.join(f'{g} guard of line {ln}' for (g, _, ln) in e['held']) + ' is alive') if e['held'] else ''
+        L.append(f'  -- {PMP_FILE}:{e["line"]} in {e["fn"]}: {e["via"]}{note}')
+        L.append(f'  {{ fn := "{e["fn"]}", line := {e["line"]}, lock := .{e["lock"]}, mode := .{e["mode"]}, held := [{held}] }}' + (',' if k + 1 < len(res['entries']) else ''))
+    L += [']', '', f'-- lock sites: {res["sites"]}, functions: {res["functions"]} (+{res["closures"]} local closures)', '-- guard extents:']
+    L += [f'--   {x}' for x in res['guard_extents']]
+    L += ['end Sched.Gen']
+    return '\n'.join(L) + '\n'
+
+
 def lean_source(res):
     L = []
     L.append('/-! GENERATED by lib/lock_extract.py from the Rust sources under pipeline/src (rules in its header).  Do not edit.')
@@ -501,7 +715,16 @@ def extract(repo, gen_dir):
     res = analyse(repo)
     src = lean_source(res)
     changed = sched_translate.write_if_changed(os.path.join(gen_dir, 'Locks.lean'), src)
-    return {'lock_sites': res['sites'], 'raw_regex_sites': res['raw_sites'], 'functions_scanned': res['functions'],
+    pres = analyse_pmp(repo)
+    psrc = pmp_lean_source(pres)
+    pchanged = sched_translate.write_if_changed(os.path.join(gen_dir, 'PmpLocks.lean'), psrc)
+    pmp = {'file': PMP_FILE, 'locks': pres['locks'], 'lock_sites': pres['sites'], 'functions_scanned': pres['functions'], 'local_closures': pres['closures'],
+           'acquisition_events': len(pres['entries']), 'guard_extents': pres['guard_extents'], 'foreign_receiver_calls': pres['foreign_receiver_calls'],
+           'acquisitions_under_a_guard': [f'{PMP_FILE}:{e["line"]} {e["fn"]}: {e["via"]} acquires {e["lock"]} ({e["mode"]}) while holding ' +
+                                          ', '.join(f'{g} ({m}, line {ln})' for (g, m, ln) in e['held']) for e in pres['entries'] if e['held']],
+           'reacquisitions': [f'{PMP_FILE}:{e["line"]} {e["fn"]}: {e["via"]}' for e in pres['entries'] if any(g == e['lock'] for (g, _, _) in e['held'])],
+           'rewritten': pchanged, 'digest': hashlib.sha256(psrc.encode()).hexdigest()[:16]}
+    return {'path_metadata_provider': pmp, 'lock_sites': res['sites'], 'raw_regex_sites': res['raw_sites'], 'functions_scanned': res['functions'],
             'local_closures': res['closures'], 'files': res['files'], 'locks': res['locks'],
             'edges': [{'held': g, 'acquired': l, 'where': w[:3]} for (g, l), w in sorted(res['edges'].items())],
             'self_edges': [g for (g, l) in res['edges'] if g == l], 'rewritten': changed,
@@ -512,6 +735,13 @@ if __name__ == '__main__':
     import sys
     sys.path.insert(0, os.path.dirname(os.path.abspath(__file__)))
     repo = sys.argv[1] if len(sys.argv) > 1 else os.environ.get('VERIF_REPO', '/repo')
+    if '--pmp' in sys.argv:
+        sys.argv.remove('--pmp')
+        repo = sys.argv[1] if len(sys.argv) > 1 else os.environ.get('VERIF_REPO', '/repo')
+        r = analyse_pmp(repo)
+        print(pmp_lean_source(r))
+        print(json.dumps(r['foreign_receiver_calls'], indent=1))
+        sys.exit(0)
     r = analyse(repo)
     print(json.dumps({'sites': r['sites'], 'raw': r['raw_sites'], 'functions': r['functions'], 'closures': r['closures'],
                       'site_list': r['site_list'], 'edges': {f'{g}->{l}': w for (g, l), w in sorted(r['edges'].items())}}, indent=1))
